@@ -40,8 +40,8 @@ class IOEnv:
             fU = prog.func(mod, "unlink_or_mkdir")
             it.overrides[fU.key] = lambda interp, args, kwargs: str(args[0])
 
-    def grid(self, D: int, tag: str = "g", oriented: bool = True) -> Tuple[Obj, Dict[str, Any]]:
-        size = SIZES[D]
+    def grid(self, D: int, tag: str = "g", oriented: bool = True, size: Optional[Tuple[int, ...]] = None) -> Tuple[Obj, Dict[str, Any]]:
+        size = size or SIZES[D]
         s = [Rat.atom(f"s{tag}{i}") for i in range(D)]
         o = [Rat.atom(f"o{tag}{i}") for i in range(D)]
         for x in s:
@@ -50,8 +50,8 @@ class IOEnv:
         g = self.it.new(self.Grid, size=size, origin=STensor.from_flat(o, [D]), spacing=STensor.from_flat(s, [D]), direction=R)
         return g, {"size": size, "spacing": s, "origin": o, "R": R}
 
-    def data(self, D: int, C: int, dtype: str, tag: str = "v") -> STensor:
-        shape = [C] + list(reversed(SIZES[D]))
+    def data(self, D: int, C: int, dtype: str, tag: str = "v", size: Optional[Tuple[int, ...]] = None) -> STensor:
+        shape = [C] + list(reversed(size or SIZES[D]))
         t = STensor.symbols(tag, shape)
         if not IO.dt(dtype).is_floating_point:
             for v in t.flat():
@@ -215,6 +215,52 @@ def run_roundtrip(ctx: Ctx, quick: bool = True) -> None:
                             return True, ""
                         _guard(ctx, "T18.interop-read", f"{ext}:D={D}:C={C}:z={compress}", fR,
                                f"reference-written format={ext} D={D} channels={C} compress={compress}", thr)
+
+    # grids with one-sample axes (a single slice, a single row): size and dimensionality survive every route
+    ctx.rule("T18.singleton", "the same three obligations (round trip, library-written file read by the reference reader, reference-written "
+                              "file read by the library) on grids with singleton spatial axes: sizes (3,2,1), (3,1,2), (1,2,2), (3,1), (1,2), "
+                              "1 and 2 channels — the stored image keeps its dimensionality and size")
+    for ext in FORMATS:
+        for size in ((3, 2, 1), (3, 1, 2), (1, 2, 2), (3, 1), (1, 2)):
+            for C in (1, 2):
+                D = len(size)
+
+                if ext.startswith(".nii") and D == 2:
+                    continue  # 2-D NIfTI is stored as a one-slice volume whatever the size: recorded finding of T18.roundtrip / interop
+
+                def ths(ext=ext, size=size, C=C, D=D):
+                    for route in ("roundtrip", "interop-write", "interop-read"):
+                        if route != "roundtrip" and ext not in (".mha", ".nii.gz"):
+                            continue
+                        if route == "interop-write" and ext.startswith(".nii") and C > 1:
+                            continue  # multi-channel NIfTI is written without vector intent: recorded finding of T18.interop-write
+                        if route == "interop-read" and ext.startswith(".nii") and C > 1 and size[-1] == 1:
+                            # a one-slice vector volume written by ITK has the header of a 2-D vector image (dim = [5, x, y, 1, 1, C]):
+                            # the very file of the recorded T18.interop-read finding (grid dimension taken from dim[0])
+                            continue
+                        env = IOEnv(ctx)
+                        it = env.it
+                        g, geo = env.grid(D, size=size)
+                        data = env.data(D, C, "float32", size=size)
+                        path = f"/vfs/image{ext}"
+                        if route == "interop-read":
+                            IO.sitk_write(sitk_make(data, geo), path, True)
+                        else:
+                            it.call(fW, data.clone(), g, path, compress=True)
+                        if route == "interop-write":
+                            ok, msg = sitk_expect(env, IO.sitk_read(path), data, geo, "reference reader")
+                            if not ok:
+                                return False, f"{route}: {msg}"
+                            continue
+                        d2, g2 = it.call(fR, path)
+                        ok, msg = same_data(d2, data)
+                        if not ok:
+                            return False, f"{route}: {msg}"
+                        ok, msg = same_grid(env, g2, geo)
+                        if not ok:
+                            return False, f"{route}: grid {msg}"
+                    return True, ""
+                _guard(ctx, "T18.singleton", f"{ext}:size={size}:C={C}", fW, f"format={ext} size={size} channels={C}", ths)
 
 
 def run_entry_points(ctx: Ctx) -> None:
